@@ -192,6 +192,38 @@ def families(tier: str) -> Iterator[bytes]:
         yield shared_chain(nrec, nl)
     for n in (10, 100, 126, 127, 128, 129, 200, 400):
         yield pointer_ladder(n)
+    yield from poisoned()
+
+
+def poisoned() -> Iterator[bytes]:
+    """A record whose rdata name is malformed (too long, or a label that cannot be encoded again) but whose rdlength is
+    consistent - the decoder skips that record - followed by records whose owner or rdata name is a bare pointer into
+    that rdata: whatever the decoder remembered about the rejected name must not come back through the pointer."""
+    def lab(b: bytes) -> bytes:
+        return bytes([len(b)]) + b
+
+    bad_names = [b"".join(lab(b"a" * 63) for _ in range(5)) + b"\x00", b"".join(lab(b"b" * 63) for _ in range(4)) + b"\x00",
+                 lab(b"\xff" * 40) + lab(b"local") + b"\x00", lab(b"\xc3" * 22) + b"\x00",
+                 lab(b"c" * 63) * 3 + lab(b"d" * 61) + b"\x00"]  # the last one: exactly 253 characters - acceptable
+    owner = lab(b"o") + lab(b"local") + b"\x00"
+    for qd in (0, 1):
+        question = (lab(b"_q") + lab(b"local") + b"\x00" + struct.pack(">HH", 12, 1)) if qd else b""
+        for bad in bad_names:
+            for t1, pre in ((12, b""), (5, b""), (33, struct.pack(">HHH", 0, 0, 80)), (47, b"")):
+                post = b"\x00\x01\x40" if t1 == 47 else b""
+                rdata1 = pre + bad + post
+                start = 12 + len(question)
+                rec1 = owner + struct.pack(">HHIH", t1, 1, 120, len(rdata1)) + rdata1
+                bad_off = start + len(owner) + 10 + len(pre)
+                ptr = struct.pack(">H", 0xC000 | bad_off)
+                inner = struct.pack(">H", 0xC000 | (bad_off + 1 + bad[0]))  # a pointer to the second label of the bad name
+                for p in (ptr, inner, lab(b"x") + ptr):
+                    seconds = [p + struct.pack(">HHIH", 1, 0x8001, 120, 4) + b"\x0a\x00\x00\x01",
+                               owner + struct.pack(">HHIH", 12, 1, 4500, len(p)) + p,
+                               owner + struct.pack(">HHIH", 33, 0x8001, 120, 6 + len(p)) + struct.pack(">HHH", 0, 0, 80) + p]
+                    for rec2 in seconds:
+                        yield header(0x8400 if not qd else 0x0000, qd, 2, 0, 0) + question + rec1 + rec2
+                        yield header(0x8400, qd, 3, 0, 0) + question + rec1 + rec2 + rec2
 
 
 # ------------------------------------------------------------------------------------------------
